@@ -230,6 +230,8 @@ def bounded_for(c, tier, seed):
 
 # ---------------------------------------------------------------- the per-author bypass map (an input of the contract)
 def extra(rep, tier, seed, budget):
+    from specs import shared_facts as _sf
+    _sf.add_facts(rep, _sf.option_defaults(), 'option registry defaults')
     # job.author_bypass is an input above; the map it reads is built by settings.PrAuthorsOptions.deserialize,
     # checked by a bounded stand-in on the real function (labelled bounded, not counted as proved)
     from bounded import author_options
